@@ -883,6 +883,8 @@ def rule_T4(ctx) -> None:
             num, ty = a[0], a[1]
             if num[0] == "c" and ty[0] == "sub" and ty[2][0] == "c":
                 seen.add((num[1], ty[2][1], _entry_part(a[2])))
+            elif num[0] == "c" and ty[0] == "item" and isinstance(ty[2], int):
+                seen.add((num[1], ty[2], _entry_part(a[2])))        # key_type, value_type = meta.map_types
     want = {(1, 0, "key"), (2, 1, "value")}
     if seen == want:
         ctx.proved("T4", "dump:map-entry-numbering", mod.loc(dump))
